@@ -289,7 +289,11 @@ func runSession(r *mon.Run, idx int) {
 	}
 }
 
-var reasons = map[string]bool{bk.MsgKeyMissing: true, bk.MsgDisconnecting: true, bk.MsgAlready: true, bk.MsgIncorrectKey: true}
+// isRefusalRecord: an error-level record that names why a stream was not
+// attached (anything but the record of an attached stream's ending).
+func isRefusalRecord(level, msg string) bool {
+	return level == "ERROR" && msg != "" && msg != bk.MsgDisconnected && msg != bk.MsgShellIO && msg != bk.MsgNew
+}
 
 func judge(r *mon.Run, idx int, evs []bk.Event, w *bk.World, refused []*bk.Attempt, viol func(key, what string)) {
 	// 1. framing: every handler write is exactly one JSON object on one line
@@ -441,7 +445,7 @@ func judge(r *mon.Run, idx int, evs []bk.Event, w *bk.World, refused []*bk.Attem
 			r.Count("refused_streams", 1)
 			n := 0
 			for _, rc := range recs {
-				if rc.att() == a.ID && rc.str("level") == "ERROR" && reasons[rc.str("msg")] && (rc.str("direction") == d || rc.str("direction") == "") {
+				if rc.att() == a.ID && isRefusalRecord(rc.str("level"), rc.str("msg")) && (rc.str("direction") == d || rc.str("direction") == "") {
 					n++
 				}
 			}
